@@ -131,3 +131,48 @@ def wsum_filter(ctx):
           z3.ForAll([j], z3.Implies(z3.And(0 <= j, j < n, z3.Not(c(j))), wL(j) == 0), patterns=[wL(j)])]
     return [("base", ax, fR(cnt(0)) == fL(0), "j = 0"),
             ("step", ax + [0 <= b, b < n, fR(cnt(b)) == fL(b)], fR(cnt(b + 1)) == fL(b + 1), "j -> j+1")]
+
+
+@lemma("bar_length_is_capacity", ["C09", "C10"])
+def bar_length_is_capacity(ctx):
+    """The bar length `sequences_split_bars` cuts (its assignment to `length_bar`) and the capacity the Bar constructor demands (its first
+    assignment to `capacity`, truncated) are the same number of ticks whenever that capacity is a whole number of ticks -- both expressions
+    are taken from the real source on every run and evaluated by the executor's own arithmetic (FLOAT-EXACT) for symbolic numerator >= 0,
+    denominator > 0.  (When the capacity is not whole the constructor raises: Bar.__init__#c10.)"""
+    import ast as _ast
+    from pyvc.engine import Exec, State, mk_heap, _as_frac, _tdiv
+    from pyvc.values import Num
+
+    def find_assign(qual, target):
+        fn, _ = ctx.sources.find(qual)
+        for n in _ast.walk(fn):
+            if isinstance(n, _ast.Assign) and len(n.targets) == 1 and isinstance(n.targets[0], _ast.Name) and n.targets[0].id == target:
+                return n.value
+        raise KeyError(f"{qual}: no assignment to {target}")
+    e_len = find_assign("Sequence.sequences_split_bars", "length_bar")
+    e_cap = find_assign("Bar.__init__", "capacity")
+    n, d = z3.Ints("numerator denominator")
+    X = Exec(ctx, "lemma", None, silent=True)
+    st = State({}, mk_heap(ctx), [], {})
+    selfv = z3.Int("self")
+    from pyvc.values import Ref
+    st.env = {"current_ts_numerator": Num(n), "current_ts_denominator": Num(d), "self": Ref(selfv, "Bar")}
+    X.write_field(st, st.env["self"], "time_signature_numerator", Num(n))
+    X.write_field(st, st.env["self"], "time_signature_denominator", Num(d))
+    for k_, v_ in ctx.globals.items():
+        st.env.setdefault(k_, v_)
+    length_bar = X.ev(e_len, st)
+    cap = X.ev(e_cap, st)
+    fr = _as_frac(cap.as_real())
+    if fr is None:
+        raise ValueError("capacity expression is not a quotient of integers")
+    whole = fr[0] % fr[1] == 0
+    cap_int = _tdiv(fr[0], fr[1])
+    lb = length_bar.v if not length_bar.real else None
+    if lb is None:
+        raise ValueError("length_bar is not an int expression")
+    a_, d_ = z3.Ints("a!td d!td")
+    from pyvc.engine import TDIV
+    tdiv_exact = z3.ForAll([a_, d_], z3.Implies(z3.And(d_ > 0, a_ % d_ == 0), TDIV(a_, d_) == a_ / d_), patterns=[TDIV(a_, d_)])
+    hyp = [n >= 0, d > 0, whole, tdiv_exact] + list(st.pc)
+    return [("same_ticks_when_whole", hyp, lb == cap_int, f"length_bar `{_ast.unparse(e_len)}` == int(capacity `{_ast.unparse(e_cap)}`) whenever the capacity is whole")]
